@@ -192,7 +192,10 @@ def leaf_truncated(frame):
       structure stops there (e.g. the value bytes left behind when a
       fixed-size item's length field was zeroed and the decoder read the
       value anyway);
-    * batch items beyond the Batch Count of the header are never read."""
+    * batch items beyond the Batch Count of the header are never read;
+    * a fixed-size item (integer, long integer, enumeration, boolean, date,
+      interval) is complete when its 8 value bytes are there, whatever its
+      length field says."""
     import struct as _s
     buf = bytes(frame)
 
@@ -226,6 +229,13 @@ def leaf_truncated(frame):
                             count = _s.unpack_from('!i', buf, q + 8)[0]
                         q += 8 + l2 + ((8 - l2 % 8) % 8)
                 pos = vstart + ln + ((8 - ln % 8) % 8)
+            elif typ in (2, 3, 5, 6, 9, 10):
+                # fixed-size items occupy 8 value bytes whatever their
+                # length field says; a reader that takes those 8 bytes has
+                # everything (the real decoder does so for Boolean)
+                if vstart + 8 > end:
+                    return True
+                pos = vstart + 8
             else:
                 if vstart + ln > end:
                     return True
